@@ -978,6 +978,11 @@ func (g *gen) behC13() M {
 		}
 		// make sure the COPY is over before the next round: CopyDone, then Sync
 		steps = append(steps, send(M{"t": "c"}), send(M{"t": "c"}), send(M{"t": "S"}))
+		if g.chance(0.5) {
+			// the COPY is over: a late CopyFail without reason or terminator (the handler had given up while it
+			// was under way) is a stray COPY message like any other, ignored whatever its body; the session goes on
+			steps = append(steps, send(M{"t": "Bad", "ty": "f", "cls": g.pick("short", "nonul")}), send(M{"t": "Q", "q": g.trivialQ()}))
+		}
 	}
 	return M{"cfg": g.deadCtx(baseCfg()), "steps": steps}
 }
